@@ -28,6 +28,10 @@ theorem lookup_merged_explicit (r : Request) (h : (r.kws.map Param.kw).Nodup) (p
     lookup p.kw (merged r).pmap = some p.val := by
   simp [lookup_merged, lastVal_of_mem_nodup r.kws h p hp]
 
+theorem lookup_method (r : Request) (h : (r.kws.map Param.kw).Nodup) (m : Meth)
+    (hm : (⟨.method, .method m⟩ : Param) ∈ r.kws) : lookup Kw.method (merged r).pmap = some (.method m) :=
+  lookup_merged_explicit r h ⟨.method, .method m⟩ hm
+
 theorem defaults_lookup : ∀ k ∈ defaultsList, lookup k defaults.pmap = some k.default := by decide
 
 theorem default_typed (k : Kw) : (k.default).ty = k.ty := by cases k <;> rfl
@@ -35,22 +39,89 @@ theorem default_typed (k : Kw) : (k.default).ty = k.ty := by cases k <;> rfl
 /-- all values of the keyword list have the type of their keyword -/
 def WellTyped (r : Request) : Prop := ∀ p ∈ r.kws, p.val.ty = p.kw.ty
 
-/-- every keyword has a value of its own type in the merged set -/
-theorem merged_typed (r : Request) (ht : WellTyped r) (hm : ∃ p ∈ r.kws, p.kw = Kw.method) (k : Kw) :
+theorem defaults_keys_nodup : (defaults.pmap.map Prod.fst).Nodup := by decide
+theorem defaults_typed : ∀ kv ∈ defaults.pmap, kv.2.ty = kv.1.ty := by decide
+theorem defaults_mem_of_lookup (k : Kw) (v : Val) (h : lookup k defaults.pmap = some v) : (k, v) ∈ defaults.pmap := by
+  have key : ∀ (m : List (Kw × Val)), lookup k m = some v → (k, v) ∈ m := by
+    intro m
+    induction m with
+    | nil => intro h; simp [lookup] at h
+    | cons hd t ih =>
+      obtain ⟨k', v'⟩ := hd
+      intro h
+      by_cases hk : k' = k
+      · subst hk; simp [lookup] at h; subst h; exact List.mem_cons_self
+      · simp [lookup, hk] at h; exact List.mem_cons_of_mem _ (ih h)
+  exact key _ h
+
+/-- `merge(defaults)` succeeds, with the plainly merged set, iff no explicitly given keyword that has a default holds a
+    value whose type differs from the default's type -/
+theorem merge_defaults_ok (r : Request)
+    (h : ∀ p ∈ r.kws, p.kw ∈ defaultsList → p.val.ty = p.kw.ty) :
+    (PSet.ofList r.kws).merge defaults = .ok (merged r) := by
+  have hs := mergeInto_succeeds defaults.pmap (PSet.ofList r.kws).pmap defaults_keys_nodup (by
+    intro kv hkv v hv
+    rw [lookup_ofList] at hv
+    obtain ⟨p, hp, hk, hpv⟩ := lastVal_some _ _ _ hv
+    have hin : kv.1 ∈ defaultsList := by
+      have : ∀ kv ∈ defaults.pmap, kv.1 ∈ defaultsList := by decide
+      exact this kv hkv
+    rw [defaults_typed kv hkv, ← hpv, ← hk]
+    exact h p hp (hk ▸ hin))
+  obtain ⟨m', hm'⟩ := hs
+  have := mergeInto_ok _ _ _ hm'
+  simp only [PSet.merge, hm', merged, PSet.mergeRaw, this]
+
+theorem merge_defaults_fails (r : Request) (p : Param) (hp : p ∈ r.kws) (hn : (r.kws.map Param.kw).Nodup)
+    (hd : p.kw ∈ defaultsList) (hty : p.val.ty ≠ p.kw.ty) :
+    (PSet.ofList r.kws).merge defaults = .error (errS .wrong_parameter_type_error) := by
+  have hl : lookup p.kw (PSet.ofList r.kws).pmap = some p.val := by
+    rw [lookup_ofList, lastVal_of_mem_nodup r.kws hn p hp]
+  have hdef := defaults_lookup p.kw hd
+  have hmem := defaults_mem_of_lookup _ _ hdef
+  have := mergeInto_fails defaults.pmap (PSet.ofList r.kws).pmap defaults_keys_nodup
+    ⟨(p.kw, p.kw.default), hmem, p.val, hl, by simpa [default_typed] using hty⟩
+  simp only [PSet.merge, this]
+
+/-- the outcome of `merge(defaults)` is one of the two above -/
+theorem merge_defaults_cases (r : Request) (hn : (r.kws.map Param.kw).Nodup) :
+    ((PSet.ofList r.kws).merge defaults = .ok (merged r) ∧ ∀ p ∈ r.kws, p.kw ∈ defaultsList → p.val.ty = p.kw.ty) ∨
+    ((PSet.ofList r.kws).merge defaults = .error (errS .wrong_parameter_type_error) ∧
+      ∃ p ∈ r.kws, p.kw ∈ defaultsList ∧ p.val.ty ≠ p.kw.ty) := by
+  by_cases h : ∀ p ∈ r.kws, p.kw ∈ defaultsList → p.val.ty = p.kw.ty
+  · exact Or.inl ⟨merge_defaults_ok r h, h⟩
+  · have : ∃ p ∈ r.kws, p.kw ∈ defaultsList ∧ p.val.ty ≠ p.kw.ty := by
+      apply Classical.byContradiction
+      intro hc
+      apply h
+      intro p hp hd
+      apply Classical.byContradiction
+      intro hne
+      exact hc ⟨p, hp, hd, hne⟩
+    obtain ⟨p, hp, hd, hty⟩ := this
+    exact Or.inr ⟨merge_defaults_fails r p hp hn hd hty, p, hp, hd, hty⟩
+
+/-- every keyword has a value of its own type in the merged set, provided the explicitly given keywords that have a
+    default are well typed (i.e. `merge` did not throw) and `method` is given with a method value -/
+theorem merged_typed (r : Request) (ht : ∀ p ∈ r.kws, p.kw ∈ defaultsList → p.val.ty = p.kw.ty)
+    (hm : ∃ m, lookup Kw.method (merged r).pmap = some (.method m)) (k : Kw) :
     ∃ v, lookup k (merged r).pmap = some v ∧ v.ty = k.ty := by
-  rw [lookup_merged]
-  cases h : lastVal k r.kws with
-  | some v =>
-    obtain ⟨p, hp, hk, hv⟩ := lastVal_some k r.kws v h
-    exact ⟨v, rfl, by rw [← hv, ← hk]; exact ht p hp⟩
-  | none =>
-    have hk : k ≠ .method := by
-      intro hk; subst hk
-      obtain ⟨p, hp, hpk⟩ := hm
-      exact ((lastVal_none_iff _ _).mp h) p hp hpk
-    have hd : k ∈ defaultsList := by cases k <;> first | exact absurd rfl hk | decide
-    have : lookup k defaults.pmap = some k.default := defaults_lookup k hd
-    exact ⟨k.default, by simp [this], default_typed k⟩
+  by_cases hk : k = .method
+  · subst hk
+    obtain ⟨m, hm⟩ := hm
+    exact ⟨_, hm, rfl⟩
+  · have hd : k ∈ defaultsList := by cases k <;> first | exact absurd rfl hk | decide
+    rw [lookup_merged]
+    cases h : lastVal k r.kws with
+    | some v =>
+      obtain ⟨p, hp, hpk, hv⟩ := lastVal_some k r.kws v h
+      exact ⟨v, rfl, by rw [← hv, ← hpk]; exact ht p hp (hpk ▸ hd)⟩
+    | none =>
+      have : lookup k defaults.pmap = some k.default := defaults_lookup k hd
+      exact ⟨k.default, by simp [this], default_typed k⟩
+
+theorem wellTyped_defaults (r : Request) (ht : WellTyped r) :
+    ∀ p ∈ r.kws, p.kw ∈ defaultsList → p.val.ty = p.kw.ty := fun p hp _ => ht p hp
 
 def finish (x : Except Stop FState × Counts) : Result :=
   match x with
@@ -58,18 +129,20 @@ def finish (x : Except Stop FState × Counts) : Result :=
   | (.error (.reached cb), c) => ⟨.reached cb, c⟩
   | (.error (.threw e), c) => ⟨.threw (mapErr e rethrow), c⟩
 
-theorem runSteps_two (r : Request) (rest : List FrontStep) (hc : (PSet.ofList r.kws).check = .ok ()) :
+theorem runSteps_two (r : Request) (rest : List FrontStep) (hc : (PSet.ofList r.kws).check = .ok ())
+    (hm : (PSet.ofList r.kws).merge defaults = .ok (merged r)) :
     runSteps r (.checkDuplicates :: .mergeDefaults :: rest) (initState r) Counts.zero =
       runSteps r rest { ps := merged r } Counts.zero := by
-  simp only [runSteps, runStep, initState, hc, M.lift_ok, M.bind_pure', merged]
+  simp only [runSteps, runStep, initState, hc, hm, M.lift_ok, M.bind_pure']
 
-/-- without a repeated keyword, `tapkee::embed` is `afterMerge` on the merged set -/
-theorem frontEnd_eq (r : Request) (h : (r.kws.map Param.kw).Nodup) :
+/-- without a repeated keyword and with `merge` succeeding, `tapkee::embed` is `afterMerge` on the merged set -/
+theorem frontEnd_eq (r : Request) (h : (r.kws.map Param.kw).Nodup)
+    (ht : ∀ p ∈ r.kws, p.kw ∈ defaultsList → p.val.ty = p.kw.ty) :
     frontEnd r = finish (afterMerge r (merged r)) := by
   have hc : (PSet.ofList r.kws).check = .ok () := by rw [check_ofList]; simp [h]
   have h2 : runSteps r frontSteps (initState r) Counts.zero =
       runSteps r (frontSteps.drop 2) { ps := merged r } Counts.zero := by
-    have := runSteps_two r (frontSteps.drop 2) hc
+    have := runSteps_two r (frontSteps.drop 2) hc (merge_defaults_ok r ht)
     rwa [← frontSteps_head] at this
   unfold frontEnd
   rw [h2]
@@ -79,6 +152,16 @@ theorem frontEnd_eq (r : Request) (h : (r.kws.map Param.kw).Nodup) :
   cases a with
   | ok s => rfl
   | error s => cases s <;> rfl
+
+/-- without a repeated keyword but with a wrong-typed value of a keyword that has a default, `merge` throws -/
+theorem frontEnd_merge_error (r : Request) (h : (r.kws.map Param.kw).Nodup)
+    (hm : (PSet.ofList r.kws).merge defaults = .error (errS .wrong_parameter_type_error)) :
+    frontEnd r = ⟨.threw (errT .wrong_parameter_type_error), Counts.zero⟩ := by
+  have hc : (PSet.ofList r.kws).check = .ok () := by rw [check_ofList]; simp [h]
+  unfold frontEnd
+  rw [frontSteps_head]
+  simp only [runSteps, runStep, initState, hc, hm, M.lift_ok, M.bind_pure', M.lift_error, M.bind_throw, M.throw_apply]
+  decide
 
 theorem mapErr_wpe_iff (e : Err)
     (he : e = errT .no_data_error ∨ e = errS .wrong_parameter_error ∨ e = errT .cancelled_exception ∨
